@@ -108,6 +108,9 @@ class InterpBase:
                 return o.t == Val.v_none
             return False
         if isinstance(a, VStr) and isinstance(b, VStr):
+            if is_opaque_str(a) or is_opaque_str(b):
+                # formatted strings are abstracted to one opaque constant: their value is unknown, so nothing may be concluded from comparing them
+                raise Undecided(f'comparison involving a formatted (opaque) string: {a!r} == {b!r}')
             return a.s == b.s
         if isinstance(a, (VInt, VReal)) and isinstance(b, (VInt, VReal)):
             ae = z3.ToReal(a.e) if isinstance(a, VInt) and isinstance(b, VReal) else a.e
@@ -481,6 +484,8 @@ class InterpBase:
             return VBool(not t) if isinstance(t, bool) else VBool(z3.Not(t))
         if isinstance(e.op, ast.USub):
             t, real = self.as_num(v, e)
+            if not real and z3.is_int_value(t):
+                return VInt(-t.as_long())
             return VReal(-t) if real else VInt(-t)
         raise Undecided('unary ' + type(e.op).__name__)
 
@@ -514,10 +519,26 @@ class InterpBase:
             if xr != yr:
                 x = x if xr else z3.ToReal(x)
                 y = y if yr else z3.ToReal(y)
+            if not (xr or yr) and z3.is_int_value(x) and z3.is_int_value(y):
+                xi, yi = x.as_long(), y.as_long()
+                return VInt(xi + yi if isinstance(op, ast.Add) else (xi - yi if isinstance(op, ast.Sub) else xi * yi))
             r = x + y if isinstance(op, ast.Add) else (x - y if isinstance(op, ast.Sub) else x * y)
             return VReal(r) if (xr or yr) else VInt(r)
         if isinstance(op, ast.Mod) and isinstance(a, VStr):
             return VStr('<str>')
+        if isinstance(op, (ast.FloorDiv, ast.Mod)) and isinstance(a, (VInt, VBool)) and isinstance(b, (VInt, VBool)):
+            x, _ = self.as_num(a, node)
+            y, _ = self.as_num(b, node)
+            if z3.is_int_value(y):
+                yi = y.as_long()
+                if yi == 0:
+                    self.throw('ZeroDivisionError', 'integer division or modulo by zero')
+                if z3.is_int_value(x):
+                    xi = x.as_long()
+                    return VInt(xi // yi if isinstance(op, ast.FloorDiv) else xi % yi)
+                if yi > 0:
+                    # SMT-LIB div / mod (remainder in [0, y)) coincide with Python's floor division for a positive divisor
+                    return VInt(x / y if isinstance(op, ast.FloorDiv) else x % y)
         raise Undecided(f'binary operator {type(op).__name__} on {a!r}, {b!r}')
 
     def e_Compare(self, e, fr):
